@@ -226,8 +226,10 @@ pub proof fn lemma_pass(kind: int, name: Seq<char>, start: real, step: real, bod
 
 pub proof fn lemma_exit_repeat(count: nat, name: Seq<char>, start: real, step: real, limit: nat, bodies: Seq<Step>, n: nat,
                                pre: Seq<Step>, tr: Seq<Step>, out: Seq<OutEv>, boxes: Seq<BoundingBox>)
-    requires all_bodies(bodies), bodies.len() == n, n == count, n <= limit,
-        tr == pre + passes(0, name, start, step, bodies, n), out == cat_events(bodies, n), boxes == cat_boxes(bodies, n),
+    requires all_bodies(bodies), bodies.len() == n, n <= limit,
+        n == count,   // exactly `count` passes  @C16.loop.unrolling @C17.loop.exact
+        tr == pre + passes(0, name, start, step, bodies, n),   // trace is the unrolled trace  @C16.loop.unrolling @C17.loop.exact @C14.header.once
+        out == cat_events(bodies, n), boxes == cat_boxes(bodies, n),
     ensures loop_post(0, count, name, start, step, limit, pre, tr, out, boxes)
 { reveal(loop_post); }
 
@@ -261,6 +263,12 @@ pub proof fn lemma_exit_until(count: nat, name: Seq<char>, start: real, step: re
 
 impl EventGen for LoopElement {
 //@item src/loop_el.rs :: impl EventGen for LoopElement :: fn generate_events
+//@ attr #[verifier::loop_isolation(false)]
+//@ attr #[verifier::allow_complex_invariants]
+//@ body-start
+//@ | let ghost mut g_count: nat = 0nat;
+//@ after <<<eval_attr(count, context)?.parse()?;>>>
+//@ | proof { g_count = loop_count as nat; }
 //@ before <<<loop {>>>
 //@ | let ghost g_start = val(loop_var_value);
 //@ | let ghost g_step = val(loop_step);
@@ -275,20 +283,20 @@ impl EventGen for LoopElement {
 //@ | let ghost g_out0 = gen_events@;
 //@ | let ghost g_boxes0 = bbox.boxes();
 //@ before#1 <<<break;>>>
-//@ | proof { lemma_exit_repeat(loop_count as nat, loop_var_name@, g_start, g_step, g_limit, g_bodies, iteration as nat, g_pre, context.tr@, gen_events@, bbox.boxes()); }
+//@ | proof { lemma_exit_repeat(g_count, loop_var_name@, g_start, g_step, g_limit, g_bodies, iteration as nat, g_pre, context.tr@, gen_events@, bbox.boxes()); }
 //@ before#2 <<<break;>>>
-//@ | proof { lemma_exit_while(loop_count as nat, loop_var_name@, g_start, g_step, g_limit, g_bodies, iteration as nat, g_pre, context.tr@, gen_events@, bbox.boxes()); }
+//@ | proof { lemma_exit_while(g_count, loop_var_name@, g_start, g_step, g_limit, g_bodies, iteration as nat, g_pre, context.tr@, gen_events@, bbox.boxes()); }
 //@ before#3 <<<break;>>>
 //@ | proof {
 //@ |     let x = Step::Body(ev_list@, ev_bbox);
 //@ |     assert(context.tr@ =~= g_tr0 + set_step(loop_var_name@, g_start, g_step, (iteration - 1) as nat) + seq![x, Step::Cond(true)]);
-//@ |     lemma_exit_until(loop_count as nat, loop_var_name@, g_start, g_step, g_limit, g_bodies, x, (iteration - 1) as nat, g_pre, g_tr0, context.tr@, g_out0, gen_events@, g_boxes0, bbox.boxes());
+//@ |     lemma_exit_until(g_count, loop_var_name@, g_start, g_step, g_limit, g_bodies, x, (iteration - 1) as nat, g_pre, g_tr0, context.tr@, g_out0, gen_events@, g_boxes0, bbox.boxes());
 //@ | }
 //@ after#2 <<<                        break;\n                    }\n                }\n>>>
 //@ | proof {
 //@ |     let x = Step::Body(ev_list@, ev_bbox);
 //@ |     assert(context.tr@ =~= g_tr0 + (if g_kind == 1 { seq![Step::Cond(true)] } else { Seq::<Step>::empty() }) + set_step(loop_var_name@, g_start, g_step, (iteration - 1) as nat)
-//@ |            + seq![x] + (if g_kind == 2 { seq![Step::Cond(false)] } else { Seq::<Step>::empty() }));
+//@ |            + seq![x] + (if g_kind == 2 { seq![Step::Cond(false)] } else { Seq::<Step>::empty() }));   // each pass adds exactly its unrolled steps @C16.loop.unrolling @C17.loop.exact @C14.header.once
 //@ |     lemma_pass(g_kind, loop_var_name@, g_start, g_step, g_bodies, x, (iteration - 1) as nat, g_pre, g_tr0, context.tr@);
 //@ |     g_bodies = g_bodies.push(x);
 //@ | }
@@ -303,7 +311,7 @@ impl EventGen for LoopElement {
 //@ - all_bodies(g_bodies)
 //@ - g_bodies.len() == iteration
 //@ - iteration <= context.config.loop_limit
-//@ - g_kind == 0 ==> iteration <= loop_count
+//@ - g_kind == 0 ==> iteration <= g_count
 //@ - val(loop_var_value) == var_at(g_start, g_step, iteration as nat)
 //@ - context.tr@ == g_pre + passes(g_kind, loop_var_name@, g_start, g_step, g_bodies, iteration as nat)
 //@ - gen_events@ == cat_events(g_bodies, iteration as nat)
@@ -316,7 +324,7 @@ impl EventGen for LoopElement {
 //@ - g_kind == kind_of(loop_def.loop_type)
 //@ - g_step == val(loop_step)
 //@ ensures
-//@ - loop_post(g_kind, loop_count as nat, loop_var_name@, g_start, g_step, old(context).config.loop_limit as nat, old(context).tr@ + g_hdr, context.tr@, gen_events@, bbox.boxes())
+//@ - loop_post(g_kind, g_count, loop_var_name@, g_start, g_step, old(context).config.loop_limit as nat, old(context).tr@ + g_hdr, context.tr@, gen_events@, bbox.boxes())
 //@ - context.config == old(context).config
 //@ decreases
 //@ - context.config.loop_limit - iteration     @@C01.loop.terminates
